@@ -333,6 +333,31 @@ class C19(Prop):
                 if got != should:
                     return Mismatch('verification of a null inside %s (nulls forbidden there)' % dt.simpleString(), got, should,
                                     'C19:verify:nullsweep', relation='spec')
+            # the same through createDataFrame, in BOTH orders with the all-nullable twin of the schema (same names and types,
+            # nulls allowed everywhere): verification must depend on the schema given, not on one seen earlier in the process
+            def relax(x):
+                if isinstance(x, t.ArrayType):
+                    return t.ArrayType(relax(x.elementType), True)
+                if isinstance(x, t.MapType):
+                    return t.MapType(x.keyType, relax(x.valueType), True)
+                if isinstance(x, t.StructType):
+                    return t.StructType([t.StructField(f.name, relax(f.dataType), True) for f in x.fields])
+                return x
+            twin = relax(st)
+
+            def create(schema, v):
+                try:
+                    self.spark.createDataFrame([t.Row('f')(v)], schema).collect()
+                    return None
+                except Exception as e:  # pylint: disable=broad-except
+                    return type(e).__name__
+            for order in (('twin', 'strict'), ('strict', 'twin')):
+                for which in order:
+                    got = create(twin if which == 'twin' else st, badv)
+                    should = None if which == 'twin' else 'ValueError'
+                    if got != should:
+                        return Mismatch('createDataFrame(row with a null inside %s, %s schema) after using the %s schema first'
+                                        % (dt.simpleString(), which, order[0]), got, should, 'C19:create:nullsweep', relation='spec')
             return None
         if kind == 'verify':
             st = gen_struct(rng, 2)
